@@ -91,7 +91,9 @@ def parked_schedules(res, stats, fc):
     entered, release = threading.Event(), threading.Event()
 
     def park(value):
-        if threading.current_thread().name == "c14-parked":
+        # parks on the marked string only, so that the place where the thread waits is chosen by the value: inside the construction of
+        # a property value, of an array item, of a composition member, or in the propertyNames validator
+        if threading.current_thread().name == "c14-parked" and value == "PARK":
             entered.set()
             release.wait(5.0)
         return True
@@ -105,7 +107,7 @@ def parked_schedules(res, stats, fc):
             "opt": Property(Integer(default=3)), "mode": Property(String(default="fast")), "limits": Property(limits),
             "labels": Property(Array(tag, default=[{"label": "x"}])),
             "any": Property(AnyOf(Array(String(), contains=String(format="c14-park")), Null()))}, propertyNames=String(format="c14-park"))
-    parked_values = [{"first": "a"}, {"tags": ["x", "y"]}, {"any": ["p"]}, {"zz": 1}]
+    parked_values = [{"first": "PARK"}, {"tags": ["x", "PARK"]}, {"any": ["PARK"]}, {"PARK": 1}, {"first": "a", "tags": ["PARK"], "limits": {}}]
     other_values = [{"first": "b", "tags": []}, {"opt": 1}, {}, {"tags": ["q"], "limits": {"retries": 1}}, {"first": 1}, {"labels": [{}]}, {"any": None, "mode": "m"}]
     for pv in parked_values:
         expect_p = call(build(), copy.deepcopy(pv))[:2]
